@@ -7,7 +7,11 @@ from . import rel_common
 
 
 def case_of(params, model):
-    return dict(K=max(params.get("K", 3), 3), at=params.get("at", 2), maxcor=params.get("maxcor", 2))
+    c = dict(K=max(params.get("K", 3), 3), at=params.get("at", 2), maxcor=params.get("maxcor", 2))
+    if params.get("eps_SY") is not None:
+        from fractions import Fraction
+        c["eps_SY"] = float(Fraction(params["eps_SY"]))
+    return c
 
 
 def main(tier, seed):
@@ -15,6 +19,7 @@ def main(tier, seed):
     I, R = "harness.orch_rel:c13_identity", "harness.orch_rel:c13_rewrite"
     jobs = [(I, dict(K=2, ls_mode="unit", ftol="sym", ftarget=1)), (I, dict(K=2, ls_mode="lean", ftol="sym")),
             (R, dict(K=2, ls_mode="unit", at=1)), (R, dict(K=3, ls_mode="unit", at=2, maxcor=2)), (R, dict(K=2, ls_mode="unit", at=0)), (R, dict(K=3, ls_mode="unit", at=3, maxcor=3)),
+            (R, dict(K=3, ls_mode="unit", at=2, maxcor=2, eps_SY="1/4")), (R, dict(K=2, ls_mode="unit", at=0, ck_pairs=2, maxcor=2, eps_SY="1/4")),
             (R, dict(K=1, ls_mode="unit", at=0, ck_pairs=2, maxcor=2)), (R, dict(K=2, ls_mode="unit", at=0, ck_pairs=1, maxcor=2))]
     if tier != "quick":
         jobs += [(I, dict(K=3, ls_mode="unit", ftol="sym", ftarget=1)), (R, dict(K=3, ls_mode="unit", at=1, maxcor=2)),
@@ -26,7 +31,7 @@ def main(tier, seed):
             rel_common.confirm(chk, ex, "scenario_update", case_of)
     rel_common.finish_common(chk, exs, "scenario_update", case_of, tier)
     chk.stubs.append("update_fun_def: identity, or at call `at` a switch to a second uninterpreted objective (f2, g2): returns f2(x), a fresh f0_old, g2(x) and the stored gradients rewritten as g2 at the stored points")
-    chk.bounds = dict(K="2..3 (thorough 4)", switch_at="update call 0 (initial), 1, 2 (thorough 3)", history="<= 3 pairs", n=1)
+    chk.bounds = dict(K="2..3 (thorough 4)", switch_at="update call 0 (initial), 1, 2 (thorough 3)", history="<= 3 pairs", n=1, eps_SY="default 2.2e-16; 1/4 in two jobs")
     chk.sample(dict(obligations=["C13.identity_update_leaves_result_identical", "C13.identity_update_leaves_callback_states_identical", "C13.identity_update_leaves_evaluations_identical",
                                  "C13.pairs_are_differences_of_rewritten_gradients", "C13.retained_pairs_satisfy_curvature", "C13.next_iterate_as_restart_on_new_objective"]))
     return chk.finish()
